@@ -262,3 +262,23 @@ chk('C20', 'exploration',
     'runtime monitoring: file-tree and docutils read-back oracle over '
     'generated report trees, directory snapshots around rejected writes',
     'DESIGN.md section 4 (C20)')
+chk('C15', 'exploration',
+    'Histories of requests to the real argument-injection wrappers (Use '
+    'constructor, Use.from_func, using, stacked wrappers, map, task_stats / '
+    'test_stats with equal names) and to the real RunTaskFactory.make (with '
+    'and without a name, extra arguments, format keywords, dependencies, '
+    'soft dependencies, subprocess arguments, two factories) are replayed '
+    'against a reference dictionary signature -> task: identical requests '
+    'must return the same task, requests with different signatures must not '
+    'share a task unless an explicit error is raised; every returned task is '
+    'executed on a prepared environment and must return its own function '
+    'applied to its own injections / print its own command line, and carry '
+    'the requested dependencies; job collection (close_dependency_graph, '
+    'check_unique_task_names, collect_tasks on generated job files) is '
+    'compared with a plain transitive closure and must reject two tasks with '
+    'one name.',
+    'functions compared by identity; names carry the history number so that '
+    'witnesses replay in a fresh process',
+    'runtime monitoring: request histories vs a signature -> task reference '
+    'dictionary + behavioural execution of every returned task',
+    'DESIGN.md section 4 (C15)')
